@@ -327,6 +327,26 @@ elem!(L160D, 160, 32, drop);
 // same size / same alignment as W8D but a distinct TypeId (C04)
 elem!(W8DX, 8, 8, drop);
 
+// plain same-size / same-alignment std types as vector element types (C04: u64 vs i64 vs f64 vs [u8; 8]); the value is the identity
+macro_rules! plain_elem {
+    ($t:ty, $name:expr, $from:expr, $to:expr) => {
+        impl Elem for $t {
+            const NAME: &'static str = $name;
+            const SIZE: usize = 8;
+            const ALIGN: usize = std::mem::align_of::<$t>();
+            const HAS_DROP: bool = false;
+            fn fresh() -> Self { let id = reg_create(8); ($from)(id) }
+            #[inline] fn id(&self) -> u16 { ($to)(self) }
+            #[inline] fn intact(&self) -> bool { true }
+            fn retag(&mut self) { let id = fresh_id(); with_reg(|r| r.state[id as usize] = IdState::Live); *self = ($from)(id); }
+        }
+    };
+}
+plain_elem!(u64, "u64", |id: u16| id as u64, |v: &u64| *v as u16);
+plain_elem!(i64, "i64", |id: u16| -(id as i64) - 1, |v: &i64| (-(*v) - 1) as u16);
+plain_elem!(f64, "f64", |id: u16| id as f64 + 0.5, |v: &f64| (*v - 0.5) as u16);
+plain_elem!([u8; 8], "[u8;8]", |id: u16| { let mut b = [0xEEu8; 8]; b[0] = id as u8; b[1] = (id >> 8) as u8; b }, |v: &[u8; 8]| v[0] as u16 | ((v[1] as u16) << 8));
+
 /// id of an element seen as raw bytes (for byte views)
 pub fn id_of_bytes(b: &[u8]) -> u16 { read_id(b) }
 pub fn bytes_intact(b: &[u8]) -> bool { check_canary(b) }
